@@ -172,6 +172,26 @@ def check(ctx):
            message='a value parsed from one .trashinfo is kept in an object shared by all '
                    'entries (%s): an undated entry inherits the date of the previous one and '
                    'is purged' % (list(leaks)[0][1] if leaks else ''))
+    orphans = [d for d in deletes if classify(d.data['roles']['path'])[0] == {'orphan'}]
+    for d in orphans:
+        ok = False
+        names = set(cid(x) for a in flat(d.data['roles']['path']) for x in walk(a)
+                    if isinstance(x, Elem))
+        for c, pol, n in guards(b, d.id):
+            c2, p2 = unwrap_not(c, pol)
+            pn = probe_result_of(c2)
+            if pn is None or p2:
+                continue
+            pd = g.n(pn).data
+            if pd['role'] == 'presence' and pd['args'] and contains(
+                    pd['args'][0], lambda x: cid(x) in names) and contains(
+                    pd['args'][0], lambda x: is_const(x, '.trashinfo')):
+                ok = True
+        ctx.ob('R10.4', 'a payload is purged as an orphan only after its own .trashinfo was '
+                        'probed absent', ok, node=d,
+               message='orphans are decided from something else than a fresh existence test of '
+                       'info/<name>.trashinfo (e.g. a listing taken earlier): an entry trashed '
+                       'meanwhile loses its payload')
     # R10.4 twins
     approve = {}
     for d in listed:
